@@ -60,13 +60,13 @@ func genLen(rt *rapid.T, label string) int {
 	switch rapid.IntRange(0, 19).Draw(rt, label+"_class") {
 	case 0, 1:
 		return 0
-	case 2, 3, 4, 5:
+	case 2, 3, 4, 5, 6:
 		return rapid.IntRange(1, 16).Draw(rt, label)
-	case 6, 7, 8, 9, 10, 11, 12:
+	case 7, 8, 9, 10, 11, 12, 13, 14:
 		return rapid.IntRange(17, 300).Draw(rt, label)
-	case 13, 14, 15, 16:
+	case 15, 16, 17:
 		return rapid.IntRange(301, 4000).Draw(rt, label)
-	case 17:
+	case 18:
 		return rapid.SampledFrom([]int{1459, 1460, 1461, 2920, 4096, 8192, 16384, 32768, 65535, 65536}).Draw(rt, label)
 	default:
 		return rapid.IntRange(4001, 65536).Draw(rt, label)
@@ -74,7 +74,7 @@ func genLen(rt *rapid.T, label string) int {
 }
 
 const maxSegPayload = 65400
-const maxSegs = 40
+const maxSegs = 20
 
 // genSegs cuts n bytes into segment lengths.
 func genSegs(rt *rapid.T, label string, n int) []int {
@@ -178,6 +178,7 @@ func genConn(rt *rapid.T, i int, used map[string]bool) *connSpec {
 	}
 	c.TSOpt = rapid.IntRange(0, 3).Draw(rt, l+"_tsopt") == 0
 	c.SynOpt = rapid.Bool().Draw(rt, l+"_synopt")
+	c.IPOpt = !c.V6 && rapid.IntRange(0, 19).Draw(rt, l+"_ipopt") == 0
 	return c
 }
 
@@ -193,6 +194,9 @@ type fileSpec struct {
 	LateIDB     bool `json:"late_idb,omitempty"`
 	Options     bool `json:"options,omitempty"`
 	Extras      int  `json:"extras,omitempty"`
+	// PreSection: another section (fixed small conversation, opposite byte
+	// order) precedes the section under test
+	PreSection bool `json:"pre_section,omitempty"`
 }
 
 func genFile(rt *rapid.T, anyV4, anyV6 bool) fileSpec {
@@ -227,6 +231,7 @@ func genFile(rt *rapid.T, anyV4, anyV6 bool) fileSpec {
 		f.LateIDB = n == 2 && rapid.Bool().Draw(rt, "late_idb")
 		f.Options = rapid.Bool().Draw(rt, "ng_options")
 		f.Extras = rapid.IntRange(0, 2).Draw(rt, "ng_extras")
+		f.PreSection = rapid.IntRange(0, 7).Draw(rt, "pre_section") == 5
 	}
 	return f
 }
@@ -266,7 +271,23 @@ func frame(f fileSpec, link int, v6 bool, src, dst []byte, netb []byte) []byte {
 	}
 }
 
+// preConv is the fixed conversation of the section written in front of the
+// section under test.
+func preConv() *conv {
+	c := seedConn(50000, 7, 5, 9, []int{3}, []int{2}, true)
+	// addresses no generated connection uses
+	c.cip, c.sip = []byte{10, 9, 9, 1}, []byte{10, 9, 9, 2}
+	c.CIP, c.SIP = net.IP(c.cip).String(), net.IP(c.sip).String()
+	return seedConv(c, []int{0, 1, 0, 1})
+}
+
 func writeFile(f fileSpec, cv *conv) []byte {
+	if f.PreSection {
+		g := f
+		g.PreSection = false
+		pre := fileSpec{Format: "pcapng", BigEndian: !f.BigEndian, Links: []int{pcapgen.LinkEthernet}, Vlan: -1, Extras: f.Extras % 2}
+		return append(writeFile(pre, preConv()), writeFile(g, cv)...)
+	}
 	var recs []pcapgen.Record
 	for i, w := range cv.wire {
 		s := cv.segs[w.Seg]
@@ -331,6 +352,8 @@ func writeFile(f fileSpec, cv *conv) []byte {
 
 type editStats struct {
 	frag, dup, swap, omit, reseg int
+	fragReorder                  int
+	synackLost                   int
 	crossDirSwap                 int
 }
 
@@ -406,7 +429,7 @@ func genConversation(rt *rapid.T, c *harness.Case) (*conv, fileSpec, editStats) 
 	nedit := rapid.SampledFrom([]int{0, 1, 1, 1, 2, 2, 3, 4, 5}).Draw(rt, "nedit")
 	dupFrags := map[int]int{} // per segment: number of distinct fragments duplicated
 	for e := 0; e < nedit; e++ {
-		kind := rapid.SampledFrom([]string{"frag", "frag", "dup", "dup", "swap", "swap", "swap", "omit", "omit"}).Draw(rt, "edit")
+		kind := rapid.SampledFrom([]string{"frag", "frag", "dup", "dup", "swap", "swap", "swap", "omit", "omit", "reseg"}).Draw(rt, "edit")
 		// bias the position to non-handshake packets
 		i := rapid.IntRange(0, len(cv.wire)-1).Draw(rt, "at")
 		w := cv.wire[i]
@@ -466,7 +489,27 @@ func genConversation(rt *rapid.T, c *harness.Case) (*conv, fileSpec, editStats) 
 			}
 			cv.fragment(i, cuts)
 			st.frag++
-			c.Stepf("edit frag @%d cuts %v", i, cuts)
+			// arrival order of the fragments
+			n := len(cuts) + 1
+			order := rapid.SampledFrom([]string{"inorder", "inorder", "inorder", "reversed", "first-last", "first-last", "swap"}).Draw(rt, "fragorder")
+			fr := cv.wire[i : i+n]
+			switch order {
+			case "reversed":
+				for a, b := 0, n-1; a < b; a, b = a+1, b-1 {
+					fr[a], fr[b] = fr[b], fr[a]
+				}
+			case "first-last":
+				first := fr[0]
+				copy(fr, fr[1:])
+				fr[n-1] = first
+			case "swap":
+				k := rapid.IntRange(0, n-2).Draw(rt, "fragswap")
+				fr[k], fr[k+1] = fr[k+1], fr[k]
+			}
+			if order != "inorder" {
+				st.fragReorder++
+			}
+			c.Stepf("edit frag @%d cuts %v order %s", i, cuts, order)
 		case "dup":
 			if w.NFrag > 1 {
 				if dupFrags[w.Seg] >= w.NFrag-1 {
@@ -484,7 +527,7 @@ func genConversation(rt *rapid.T, c *harness.Case) (*conv, fileSpec, editStats) 
 				}
 			}
 			d := rapid.IntRange(0, 3).Draw(rt, "dupdist")
-			at := min(i+1+d, len(cv.wire))
+			at := cv.beforeRst(s.Conn, min(i+1+d, len(cv.wire)))
 			// never move the copy of a handshake packet in front of... (it lands behind the original: fine)
 			cp := *w
 			cp.Dup = true
@@ -509,6 +552,27 @@ func genConversation(rt *rapid.T, c *harness.Case) (*conv, fileSpec, editStats) 
 				}
 			}
 			c.Stepf("edit swap @%d", i)
+		case "reseg":
+			// a retransmission with other boundaries: it covers a part of this
+			// data segment and possibly bytes sent before it
+			if s.Len == 0 || s.Pinned || w.NFrag != 1 {
+				c.Stepf("edit reseg @%d: not applicable", i)
+				continue
+			}
+			from := rapid.IntRange(max(0, s.Off-2*s.Len-1), s.Off+s.Len-1).Draw(rt, "reseg_from")
+			to := rapid.IntRange(max(from+1, s.Off+1), s.Off+s.Len).Draw(rt, "reseg_to")
+			if to-from > maxSegPayload {
+				from = to - maxSegPayload
+			}
+			cs := cv.Conns[s.Conn]
+			ns := &segment{Conn: s.Conn, Dir: s.Dir, Kind: "reseg", Off: from, Len: to - from, Flags: pcapgen.ACK | pcapgen.PSH, Seq: cs.isn(s.Dir) + 1 + uint32(from), Ack: s.Ack}
+			cv.segs = append(cv.segs, ns)
+			si := len(cv.segs) - 1
+			cv.serialise(si)
+			at := cv.beforeRst(s.Conn, min(i+1+rapid.IntRange(0, 2).Draw(rt, "reseg_dist"), len(cv.wire)))
+			cv.wire = append(cv.wire[:at], append([]*wirePkt{{Seg: si, NFrag: 1, Net: cv.netBytes(si)}}, cv.wire[at:]...)...)
+			st.reseg++
+			c.Stepf("edit reseg @%d -> @%d bytes [%d:%d]", i, at, from, to)
 		case "omit":
 			if s.Pinned {
 				c.Stepf("edit omit @%d: pinned", i)
@@ -519,7 +583,33 @@ func genConversation(rt *rapid.T, c *harness.Case) (*conv, fileSpec, editStats) 
 			c.Stepf("edit omit @%d", i)
 		}
 	}
+	// rarely: the SYN+ACK of one connection is lost (every copy); the server
+	// direction of that connection then has no known start and is not asserted
+	if rapid.IntRange(0, 29).Draw(rt, "lose_synack") == 17 {
+		ci := rapid.IntRange(0, nconn-1).Draw(rt, "lose_synack_conn")
+		var kept []*wirePkt
+		for _, w := range cv.wire {
+			if s := cv.segs[w.Seg]; s.Conn == ci && s.Kind == "synack" {
+				continue
+			}
+			kept = append(kept, w)
+		}
+		cv.wire = kept
+		st.synackLost++
+		c.Stepf("edit lose SYN+ACK of c%d", ci)
+	}
 	return cv, f, st
+}
+
+// beforeRst moves an insert position in front of the connection's RST: nothing
+// is (re)transmitted on a connection after it was reset.
+func (cv *conv) beforeRst(conn, at int) int {
+	for p, w := range cv.wire {
+		if s := cv.segs[w.Seg]; s.Conn == conn && s.Kind == "rst" && p < at {
+			return p
+		}
+	}
+	return at
 }
 
 func hexShort(b []byte) string {
@@ -539,56 +629,146 @@ func firstDiff(a, b []byte) int {
 	return n
 }
 
-// compare checks an observation against the expectation.  Failures that may be
-// listed as known findings are reported last so that they do not mask others.
-func compare(c *harness.Case, ex expectation, obs *observation) {
-	c.Check(len(obs.Conns) == len(ex.Conns), "connection-count", "fq reports %d TCP connections, the capture holds %d", len(obs.Conns), len(ex.Conns))
-	type late struct{ sig, msg string }
-	var lates []late
+// compare checks an observation against the expectation.  All failures are
+// collected first; those of signature classes that may be listed as known
+// findings are reported last so that they do not mask the others.
+type failure struct {
+	rank     int
+	sig, msg string
+}
+
+func compare(c *harness.Case, ex expectation, obs *observation, disordered bool) {
+	fails, labels := diffObs(ex, obs, disordered)
+	for _, l := range labels {
+		c.Label(l)
+	}
+	for rank := 0; rank <= 2; rank++ {
+		for _, f := range fails {
+			if f.rank == rank {
+				c.Failf(f.sig, "%s", f.msg)
+			}
+		}
+	}
+}
+
+func diffObs(ex expectation, obs *observation, disordered bool) (fails []failure, labels []string) {
+	if len(obs.Conns) != len(ex.Conns) {
+		return []failure{{0, "connection-count", fmt.Sprintf("fq reports %d TCP connections, the capture holds %d", len(obs.Conns), len(ex.Conns))}}, nil
+	}
+	// connections are matched by their address/port 4-tuple (the order of
+	// .tcp_connections is not part of the property)
+	epKey := func(ip string, port int) string { return fmt.Sprintf("%s|%d", ip, port) }
+	pairKey := func(a, b string) string {
+		if a > b {
+			a, b = b, a
+		}
+		return a + " " + b
+	}
+	byKey := map[string]int{}
+	for j, o := range obs.Conns {
+		byKey[pairKey(epKey(o[0].IP, o[0].Port), epKey(o[1].IP, o[1].Port))] = j
+	}
 	for i, ce := range ex.Conns {
+		j, ok := byKey[pairKey(epKey(ce.Dir[0].IP, ce.Dir[0].Port), epKey(ce.Dir[1].IP, ce.Dir[1].Port))]
+		if !ok {
+			fails = append(fails, failure{0, "connection-missing", fmt.Sprintf("no reported connection is between %s:%d and %s:%d (model c%d)", ce.Dir[0].IP, ce.Dir[0].Port, ce.Dir[1].IP, ce.Dir[1].Port, ce.Conn)})
+			continue
+		}
+		if j != i {
+			labels = append(labels, "connection-order-differs")
+		}
 		for d := 0; d < 2; d++ {
 			e := ce.Dir[d]
-			o := obs.Conns[i][d]
+			o := obs.Conns[j][d]
 			who := fmt.Sprintf("connection %d (model c%d) %s", i, ce.Conn, []string{"client", "server"}[d])
-			c.Check(o.IP == e.IP, "endpoint-ip", "%s: ip %q, sent from %q", who, o.IP, e.IP)
-			c.Check(o.Port == e.Port, "endpoint-port", "%s: port %d, sent from %d", who, o.Port, e.Port)
-			got := o.Stream
-			isPrefix := len(got) <= len(e.Sent) && bytes.Equal(got, e.Sent[:len(got)])
-			if !isPrefix {
-				at := firstDiff(got, e.Sent)
-				c.Failf("stream-not-prefix", "%s: reported stream (%d bytes) is not a prefix of the %d bytes sent: first difference at offset %d (reported %s, sent %s); bytes before the first missing byte: %d",
-					who, len(got), len(e.Sent), at, hexShort(got[at:]), hexShort(e.Sent[min(at, len(e.Sent)):]), e.Prefix)
+			// a direction whose sequence numbers pass 2^32 while its packets are
+			// not simply in order runs into the dependency's sequence arithmetic
+			// (see NOTES.md); such failures carry their own signature class
+			// signature classes of directions that meet a recorded defect (one
+			// class per direction, dependency defects first; see NOTES.md)
+			q, rank := "", 0
+			switch {
+			case e.PeerNoStart:
+				q, rank = "synack-lost:", 2
+				who += " [the SYN+ACK of the peer is not in the capture]"
+			case e.FragOpts:
+				q, rank = "frag-ip-options:", 2
+				who += " [fragmented datagram with IPv4 options]"
+			case e.Wrap && disordered:
+				// sequence numbers pass 2^32 while the packets are not simply in order
+				q, rank = "seq-wrap:", 2
+				who += " [sequence numbers pass 2^32]"
+			case e.AfterFins:
+				q, rank = "data-after-fins:", 2
+				who += " [data arrives behind both FINs]"
+			case e.FragCoincide:
+				q, rank = "frag-length-coincidence:", 2
+				who += " [completing fragment is as long as the whole payload]"
 			}
-			if !e.Lossy {
-				c.Check(len(got) == len(e.Sent), "stream-incomplete", "%s: all %d sent bytes are in the capture, fq reports only the first %d (skipped_bytes=%d)", who, len(e.Sent), len(got), o.Skipped)
-				c.Check(o.Skipped == 0, "skipped-without-loss", "%s: nothing is missing from the capture but skipped_bytes=%d", who, o.Skipped)
+			fail := func(rank int, sig, format string, a ...any) {
+				fails = append(fails, failure{rank, sig, who + ": " + fmt.Sprintf(format, a...)})
+			}
+			if o.IP != e.IP {
+				fail(0, "endpoint-ip", "ip %q, sent from %q", o.IP, e.IP)
+			}
+			if o.Port != e.Port {
+				fail(0, "endpoint-port", "port %d, sent from %d", o.Port, e.Port)
+			}
+			if e.NoStart {
 				continue
 			}
-			c.Check(len(got) >= e.Prefix, "stream-short-before-loss", "%s: first missing byte is at offset %d of %d, fq reports only %d bytes (skipped_bytes=%d)", who, e.Prefix, len(e.Sent), len(got), o.Skipped)
-			c.Check(len(got) <= e.Prefix, "stream-continues-past-loss", "%s: first missing byte is at offset %d of %d, fq reports %d bytes", who, e.Prefix, len(e.Sent), len(got))
-			if o.Skipped == 0 {
-				switch {
-				case e.Behind:
-					lates = append(lates, late{"loss-not-signalled", fmt.Sprintf("%s: bytes from offset %d are missing and later data was captured, but skipped_bytes=0", who, e.Prefix)})
-				case e.FinSeen:
-					lates = append(lates, late{"loss-not-signalled-tail", fmt.Sprintf("%s: the last bytes (from offset %d of %d) are missing while the FIN behind them was captured, but skipped_bytes=0", who, e.Prefix, len(e.Sent))})
-				default:
-					c.Label("tail-loss-unobservable")
+			got := o.Stream
+			if !(len(got) <= len(e.Sent) && bytes.Equal(got, e.Sent[:len(got)])) {
+				at := firstDiff(got, e.Sent)
+				fail(rank, q+"stream-not-prefix", "reported stream (%d bytes) is not a prefix of the %d bytes sent: first difference at offset %d (reported %s, sent %s); bytes before the first missing byte: %d",
+					len(got), len(e.Sent), at, hexShort(got[at:]), hexShort(e.Sent[min(at, len(e.Sent)):]), e.Prefix)
+				continue
+			}
+			if !e.Lossy {
+				if len(got) != len(e.Sent) {
+					fail(rank, q+"stream-incomplete", "all %d sent bytes are in the capture, fq reports only the first %d (skipped_bytes=%d)", len(e.Sent), len(got), o.Skipped)
+				} else if o.Skipped != 0 {
+					fail(rank, q+"skipped-without-loss", "nothing is missing from the capture but skipped_bytes=%d", o.Skipped)
 				}
+				continue
+			}
+			switch {
+			case len(got) < e.Prefix:
+				fail(rank, q+"stream-short-before-loss", "first missing byte is at offset %d of %d, fq reports only %d bytes (skipped_bytes=%d)", e.Prefix, len(e.Sent), len(got), o.Skipped)
+			case len(got) > e.Prefix:
+				fail(rank, q+"stream-continues-past-loss", "first missing byte is at offset %d of %d, fq reports %d bytes (skipped_bytes=%d)", e.Prefix, len(e.Sent), len(got), o.Skipped)
+			case o.Skipped == 0 && e.Behind:
+				fail(rank, q+"loss-not-signalled", "bytes from offset %d are missing and later data was captured, but skipped_bytes=0", e.Prefix)
+			case o.Skipped == 0 && e.FinSeen:
+				fail(max(rank, 1), q+"loss-not-signalled-tail", "the last bytes (from offset %d of %d) are missing while the FIN behind them was captured, but skipped_bytes=0", e.Prefix, len(e.Sent))
+			case o.Skipped == 0:
+				labels = append(labels, "tail-loss-unobservable")
 			}
 		}
 	}
 	// reassembled IPv4 datagrams
-	c.Check(len(obs.Reasm) == len(ex.Reasm), "ipv4-reassembled-count", "fq lists %d reassembled IPv4 datagrams, the capture holds %d completely captured fragmented datagrams", len(obs.Reasm), len(ex.Reasm))
-	for i, e := range ex.Reasm {
-		o := obs.Reasm[i]
-		c.Check(o.Src == e.Src && o.Dst == e.Dst, "ipv4-reassembled-address", "reassembled datagram %d: %s -> %s, sent %s -> %s", i, o.Src, o.Dst, e.Src, e.Dst)
-		c.Check(bytes.Equal(o.Payload, e.Payload), "ipv4-reassembled-payload", "reassembled datagram %d: payload differs at offset %d (%d bytes reported, %d sent)", i, firstDiff(o.Payload, e.Payload), len(o.Payload), len(e.Payload))
-		c.Check(o.TotalLen == 20+len(e.Payload) || o.TotalLen-len(e.Payload) >= 20 && o.TotalLen-len(e.Payload) <= 60, "ipv4-reassembled-length", "reassembled datagram %d: total_length %d for a payload of %d bytes", i, o.TotalLen, len(e.Payload))
+	rq, rrank := "", 0
+	if ex.FragOpts {
+		rq, rrank = "frag-ip-options:", 2
+	} else if ex.FragCoincide {
+		rq, rrank = "frag-length-coincidence:", 2
 	}
-	for _, l := range lates {
-		c.Failf(l.sig, "%s", l.msg)
+	if len(obs.Reasm) != len(ex.Reasm) {
+		fails = append(fails, failure{rrank, rq + "ipv4-reassembled-count", fmt.Sprintf("fq lists %d reassembled IPv4 datagrams, the capture holds %d completely captured fragmented datagrams", len(obs.Reasm), len(ex.Reasm))})
+	} else {
+		for i, e := range ex.Reasm {
+			o := obs.Reasm[i]
+			switch {
+			case o.Src != e.Src || o.Dst != e.Dst:
+				fails = append(fails, failure{rrank, rq + "ipv4-reassembled-address", fmt.Sprintf("reassembled datagram %d: %s -> %s, sent %s -> %s", i, o.Src, o.Dst, e.Src, e.Dst)})
+			case !bytes.Equal(o.Payload, e.Payload):
+				fails = append(fails, failure{rrank, rq + "ipv4-reassembled-payload", fmt.Sprintf("reassembled datagram %d: payload differs at offset %d (%d bytes reported, %d sent)", i, firstDiff(o.Payload, e.Payload), len(o.Payload), len(e.Payload))})
+			case o.TotalLen-len(e.Payload) < 20 || o.TotalLen-len(e.Payload) > 60:
+				fails = append(fails, failure{rrank, rq + "ipv4-reassembled-length", fmt.Sprintf("reassembled datagram %d: total_length %d for a payload of %d bytes", i, o.TotalLen, len(e.Payload))})
+			}
+		}
 	}
+	return fails, labels
 }
 
 func runCase(rt *rapid.T, c *harness.Case, jq *fqx.Interp) {
@@ -600,6 +780,8 @@ func runCase(rt *rapid.T, c *harness.Case, jq *fqx.Interp) {
 	}
 	data := writeFile(f, cv)
 	ex := cv.expect()
+	harness.ExtraAdd("wire_packets", int64(len(cv.wire)))
+	harness.ExtraAdd("file_bytes", int64(len(data)))
 	if p := os.Getenv("C19_DUMP"); p != "" {
 		// debugging aid: the last case run (after shrinking: the minimal one)
 		_ = os.WriteFile(p, data, 0o644)
@@ -640,7 +822,7 @@ func runCase(rt *rapid.T, c *harness.Case, jq *fqx.Interp) {
 	for _, kn := range []struct {
 		k string
 		n int
-	}{{"edit-frag", st.frag}, {"edit-dup", st.dup}, {"edit-swap-same-conn", st.swap}, {"edit-swap-cross-dir", st.crossDirSwap}, {"edit-omit", st.omit}} {
+	}{{"edit-frag", st.frag}, {"edit-dup", st.dup}, {"edit-swap-same-conn", st.swap}, {"edit-swap-cross-dir", st.crossDirSwap}, {"edit-omit", st.omit}, {"edit-reseg", st.reseg}, {"edit-frag-reordered", st.fragReorder}, {"edit-synack-lost", st.synackLost}} {
 		k, n := kn.k, kn.n
 		if n > 0 {
 			c.Label(k)
@@ -654,6 +836,12 @@ func runCase(rt *rapid.T, c *harness.Case, jq *fqx.Interp) {
 	}
 	if v6 {
 		c.Label("ipv6")
+	}
+	for _, cs := range cv.Conns {
+		if cs.IPOpt {
+			c.Label("ipv4-options")
+			break
+		}
 	}
 	lossy := false
 	for _, ce := range ex.Conns {
@@ -674,13 +862,20 @@ func runCase(rt *rapid.T, c *harness.Case, jq *fqx.Interp) {
 	if len(ex.Reasm) > 0 {
 		c.Label("ipv4-reassembled")
 	}
-	c.SetNonTrivial((len(cv.Conns) >= 2 || st.frag+st.dup+st.swap+st.omit > 0) && multiSeg)
+	c.SetNonTrivial((len(cv.Conns) >= 2 || st.frag+st.dup+st.swap+st.omit+st.reseg > 0) && multiSeg)
 
-	observe := func(data []byte) (*observation, error) {
+	if f.PreSection {
+		c.Label("pcapng-two-sections")
+	}
+	observe := func(data []byte) ([]*observation, error) {
+		var all []*observation
+		var err error
 		if jq != nil {
-			return observeJQ(jq, data, f.Format)
+			all, err = observeJQAll(jq, data, f.Format)
+		} else {
+			all, err = observeTreeAll(data, f.Format)
 		}
-		return observeTree(data, f.Format)
+		return all, err
 	}
 	if f.ExplicitLen {
 		// the same section written with section length -1 must read the same
@@ -689,15 +884,37 @@ func runCase(rt *rapid.T, c *harness.Case, jq *fqx.Interp) {
 		o1, e1 := observe(data)
 		data = writeFile(g, cv)
 		o2, e2 := observe(data)
-		if (e1 == nil) != (e2 == nil) || e1 == nil && !reflect.DeepEqual(o1, o2) {
+		if ((e1 == nil) != (e2 == nil) || e1 == nil && !reflect.DeepEqual(o1, o2)) && !harness.Known("pcapng-explicit-section-length") {
+			// (a listed known finding is counted; the case goes on with the -1 variant)
 			c.Failf("pcapng-explicit-section-length", "the same pcapng section reads differently with an explicit section length (error: %v) and with section length -1 (error: %v)", e1, e2)
 		}
 	}
-	obs, err := observe(data)
+	all, err := observe(data)
 	if err != nil {
 		c.Failf("observe-error", "fq could not show the flows of a %s file (%d bytes): %v", f.Format, len(data), err)
 	}
-	compare(c, ex, obs)
+	// how fq groups the flows of a file with several sections is not part of
+	// the property: all sections together must show all connections
+	obs := &observation{}
+	for _, o := range all {
+		obs.Conns = append(obs.Conns, o.Conns...)
+		obs.Reasm = append(obs.Reasm, o.Reasm...)
+	}
+	if f.PreSection {
+		pre := preConv().expect()
+		ex.Conns = append(pre.Conns, ex.Conns...)
+		// interface ids restart in every section; the first section has one
+		// Ethernet interface, so a reader that keeps counting resolves the ids of
+		// the second section to other link types exactly in these cases
+		if f.Links[0] != pcapgen.LinkEthernet || len(f.Links) == 2 && f.Links[1] != f.Links[0] {
+			c.Label("pcapng-two-sections-other-link-types")
+			fails, _ := diffObs(ex, obs, st.dup+st.swap+st.omit+st.reseg > 0)
+			if len(fails) > 0 {
+				c.Failf("pcapng-sections:"+fails[0].sig, "second section of a pcapng file whose interfaces have other link types than those of the first section: %s", fails[0].msg)
+			}
+		}
+	}
+	compare(c, ex, obs, st.dup+st.swap+st.omit+st.reseg > 0)
 }
 
 func TestFlows(t *testing.T) {
